@@ -803,8 +803,12 @@ static int _fetch_and_process_packet(OggVorbis_File *vf,
 
             if(ogg_page_bos(&og)){
               /* boundary case */
-              if(!spanp)
+              if(!spanp){
+                /* leave the page for whoever reads on across the
+                   boundary */
+                if(vf->seekable)_seek_helper(vf,ret);
                 return(OV_EOF);
+              }
 
               _decode_clear(vf);
 
